@@ -466,7 +466,9 @@ func c10(c *core.Ctx) {
 				for _, l := range tr.layerList() {
 					switch {
 					case strings.HasPrefix(l, "context.WithCancel"), strings.HasPrefix(l, "context.WithDeadline"), strings.HasPrefix(l, "context.WithTimeout"):
-					case strings.Contains(l, "NewOutgoingContext"), strings.Contains(l, "AppendToOutgoingContext"), strings.Contains(l, "ApplyPerRPCCreds"):
+					case strings.Contains(l, "NewOutgoingContext"), strings.Contains(l, "AppendToOutgoingContext"):
+					case strings.HasPrefix(l, "fn:"):
+						// a function of the module the context passes through: the deriving steps inside it are layers of their own
 					default:
 						foreign = append(foreign, l)
 					}
